@@ -1146,5 +1146,6 @@ func init() {
 			N: c.N(4000, 200000), Gen: c13GenP, Check: c13CheckP, Batch: 1000,
 		})
 		vmLeg(c, c.N(500, 8000), vmSizes{k: 24, maxSteps: 4000, maxText: 12, extra: 2}) // leg W: interpreter model vs executeDefault (vm.go)
+		wrLeg(c, 800, 40000) // the writer model behind QuickCodes / TrackCount (leg Wr, see writer.go)
 	})
 }
